@@ -34,6 +34,11 @@ def scenarios(ctx: Ctx) -> List[Dict[str, Any]]:
         # vehicles that join a queue in the same step (same enqueue time): the tie must be broken the same way everywhere
         sc.append({"id": f"queued{base + k}", "src": "gen", "seed": 44000 + base + k, "steps": 90, "world_kwargs": {"focus": "queue"},
                    "mix": "queue"})
+    # the same scenarios once more with the instruction generators taken out and put back through the co-simulation API
+    # after the second step (runner_payload_ops.get/update_instruction_generator)
+    for s in list(sc):
+        if s["src"] == "shipped" or s["id"].startswith(("ties", "adv")):
+            sc.append(dict(s, id=s["id"] + "_api", api_touch=True, split=[2, s["steps"] - 2]))
     return sc
 
 
